@@ -534,6 +534,10 @@ func evalRule(c ast.Clause, db DB, stamp map[string]int, inStratum map[string]bo
 			if !ok {
 				return ErrUnsafe
 			}
+			budget := 3000
+			if !withinSize(v, &budget) {
+				return ErrDiverged // a term this large only arises in programs that grow terms without bound
+			}
 			args[i] = v
 		}
 		heads = append(heads, args)
@@ -1145,4 +1149,41 @@ func applyFn(sym string, args []ast.Constant) (ast.Constant, error) {
 		return ast.Number(int64(n)), nil
 	}
 	return ast.Constant{}, ErrUnsupported
+}
+
+// withinSize walks a constant and reports whether it has at most *budget nodes (shared
+// sub-terms are counted each time they occur, as every traversal of the term would).
+func withinSize(c ast.Constant, budget *int) bool {
+	*budget--
+	if *budget < 0 {
+		return false
+	}
+	switch c.Type {
+	case ast.PairShape:
+		a, b, _ := c.PairValue()
+		return withinSize(a, budget) && withinSize(b, budget)
+	case ast.ListShape, ast.MapShape, ast.StructShape:
+		if c.IsListNil() || c.IsMapNil() || c.IsStructNil() {
+			return true
+		}
+		h, t, err := c.ConsValue()
+		if err != nil {
+			// maps/structs: entry pair + rest; use the generic accessors
+			ok := true
+			cb := func(k, v ast.Constant) error {
+				if !withinSize(k, budget) || !withinSize(v, budget) {
+					ok = false
+				}
+				return nil
+			}
+			if c.Type == ast.MapShape {
+				c.MapValues(cb, func() error { return nil })
+			} else {
+				c.StructValues(cb, func() error { return nil })
+			}
+			return ok
+		}
+		return withinSize(h, budget) && withinSize(t, budget)
+	}
+	return true
 }
